@@ -33,6 +33,28 @@ func (e *OpEngine) typeOf(pkg, name string) types.Type {
 func (e *OpEngine) fn(pkg, name string) *ssa.Function { return e.P.Func(pkg, name) }
 
 // newStructPtr allocates a struct of the named type and sets the given fields.
+// poisonConfig overwrites the numeric fields of a configuration struct the caller still owns: after the
+// constructor has returned the caller may reuse or change it, and the object built from it must keep the values it
+// was constructed with.
+func (e *OpEngine) poisonConfig(v interp.Value) {
+	p, ok := v.(interp.PtrV)
+	if !ok || p.C == nil || p.C.Fields == nil {
+		return
+	}
+	st, ok := p.C.T.Underlying().(*types.Struct)
+	if !ok {
+		return
+	}
+	for i := 0; i < st.NumFields(); i++ {
+		switch cur := interp.Load(p.C.Fields[i]).(type) {
+		case interp.FloatV:
+			interp.Store(p.C.Fields[i], interp.FloatV{E: sym.SymE("changed_after_construction_" + st.Field(i).Name())})
+		case interp.IntV:
+			interp.Store(p.C.Fields[i], interp.IntV{P: cur.P.AddInt(3)})
+		}
+	}
+}
+
 func (e *OpEngine) newStructPtr(t types.Type, fields map[string]interp.Value) interp.PtrV {
 	p := e.M.NewStruct(t, "instance:"+t.String())
 	st := t.Underlying().(*types.Struct)
